@@ -84,12 +84,17 @@ func applyUpdate(m core.MeasurementInterface, f int) {
 		m.Update(func(v float64) float64 { return v * 0.9 })
 	case 1:
 		m.Update(func(v float64) float64 { return v + 1 })
+	case 3:
+		m.Update(func(v float64) float64 { return v }) // identity: must be a no-op
 	default:
 		m.Update(func(v float64) float64 { return 42 })
 	}
 }
 
 func drawSampleValue(t *Tape, base float64) float64 {
+	if t.Chance(6, "tiny-sample") {
+		return float64(1+t.Intn(9, "tiny")) * 1e-10 // finite positive, far below any epsilon a clean-up might introduce
+	}
 	switch t.Intn(6, "value-kind") {
 	case 5:
 		// small dyadic values (arithmetic progressions, exactly representable deviations)
@@ -129,7 +134,7 @@ func runC18(r *Run) {
 		case 0:
 			op.x = drawSampleValue(t, base)
 		case 3:
-			op.f = t.Intn(3, "update-f")
+			op.f = t.Intn(4, "update-f")
 		}
 		ops = append(ops, op)
 	}
@@ -138,6 +143,14 @@ func runC18(r *Run) {
 	var twin core.MeasurementInterface // fresh instance started at the last Reset
 	// reference state since reset
 	var since []float64
+	hullLo, hullHi, hullSet := 0.0, 0.0, false // range of the samples added and the values installed by Update since reset
+	widen := func(x float64) {
+		if !hullSet {
+			hullLo, hullHi, hullSet = x, x, true
+			return
+		}
+		hullLo, hullHi = math.Min(hullLo, x), math.Max(hullHi, x)
+	}
 	pure := true // only Adds since reset (no Update)
 	resets, addsAfterReset := 0, 0
 	varPrev, varKnown := 0.0, true
@@ -181,6 +194,15 @@ func runC18(r *Run) {
 				return
 			}
 			since = append(since, op.x)
+			widen(op.x)
+			if key == "expavg" || key == "sema" || key == "minimum" || key == "single" {
+				// also after Updates: whatever Update installed is part of the range, and nothing these primitives
+				// compute leaves the range of what went in
+				if e := 1e-9 * math.Max(math.Abs(hullHi), math.Abs(hullLo)); after < hullLo-e || after > hullHi+e {
+					r.Fail("wrong-value", key+"/range", "after Add(%v) the value %v lies outside the range [%v, %v] of the samples added and values installed by Update since the last reset [%s]", op.x, after, hullLo, hullHi, mf.name)
+					return
+				}
+			}
 			if resets > 0 {
 				addsAfterReset++
 			}
@@ -239,6 +261,7 @@ func runC18(r *Run) {
 			varPrev, varKnown = 0, true
 			twin = mf.mk()
 			since = nil
+			hullSet = false
 			pure = true
 			resets++
 			addsAfterReset = 0
@@ -248,7 +271,15 @@ func runC18(r *Run) {
 				return
 			}
 		case 3:
+			beforeU := m.Get()
 			applyUpdate(m, op.f)
+			if op.f == 3 {
+				if g := m.Get(); math.Abs(g-beforeU) > 1e-9*math.Abs(beforeU) && !(math.IsNaN(g) && math.IsNaN(beforeU)) {
+					r.Fail("wrong-value", key+"/identity-update", "Update with the identity function changed Get() from %v to %v [%s]", beforeU, g, mf.name)
+					return
+				}
+			}
+			widen(m.Get())
 			varKnown = false
 			if twin != nil {
 				applyUpdate(twin, op.f)
